@@ -2,7 +2,7 @@
 
 import numpy as np
 
-from .. import cases, cmp, gen, sim, expect
+from .. import cases, cmp, corpus, gen, sim, expect
 from ..harness import CaseResult
 from ..probe import read
 
@@ -30,14 +30,20 @@ WEIGHTS = ["none", "frac", "zeros", "float"]
 REQUIRED_REACH = ["column_index", "nan_at_insertions", "class:pair=CATxCAT", "class:pair=CATxMR",
                   "class:pair=MRxCAT", "class:pair=MRxMR", "class:ndim=3", "class:discriminating"]
 BATCH = 40
+RULE = RULE + corpus.RULE_SUFFIX
+REQUIRED_REACH = list(REQUIRED_REACH) + ["class:corpus"]
+TECHNIQUE = TECHNIQUE + corpus.TECHNIQUE_SUFFIX
 
 
 def units(tier, seed):
     n = 500 if tier == "quick" else 20000
-    return [{"i": i, "seed": seed} for i in range(n)]
+    # W1 synthetic surveys, then W3: the fixture corpus under the intrinsic relations
+    return [{"i": i, "seed": seed} for i in range(n)] + corpus.units(tier, seed)
 
 
 def make_case(unit):
+    if "corpus" in unit:
+        return corpus.make_case(ID, unit)
     i = unit["i"]
     g = gen.G("C16/%s/%s" % (unit["seed"], i))
     template = TEMPLATES[i % len(TEMPLATES)]
@@ -79,6 +85,8 @@ def _uneven_missing(g, rrole, rv, crole, cv):
 
 
 def check_case(case):
+    if "fixture" in case:
+        return corpus.check_case(ID, case)
     res = CaseResult()
     L = cases.realize(case)
     o = L.oracle
